@@ -38,6 +38,15 @@ def coverage():
     return sorted(covered), uncovered
 
 
+def warm():
+    """Build the reference-seed table once in the parent process: forked shard workers inherit it."""
+    from vf.core import lib as _lib  # pylint: disable=import-outside-toplevel
+    from vf.gen import refseeds  # pylint: disable=import-outside-toplevel
+    classes = _lib.concrete_classes()
+    if classes:
+        refseeds.for_class(classes[0])
+
+
 def composed_examples(cls, count=8):
     """Deterministic handful of encodings composed from generated objects of the class ([] if none)."""
     ref = lib.ref_of(cls)
@@ -66,6 +75,9 @@ def composed_examples(cls, count=8):
         from vf.gen import der, seeds  # pylint: disable=import-outside-toplevel
         for data in [bytes(b) for b in seeds.seeds_for(cls) if 300 < len(b) <= 4096][:4]:
             out = out + [variant for variant in der.certificate_variants(data) if variant not in out]
+    # reference-encoded models (independent of compose(): what the library cannot compose still becomes an input)
+    from vf.gen import refseeds  # pylint: disable=import-outside-toplevel
+    out = out + [wire for wire in refseeds.for_class(cls) if wire not in out]
     if ref == 'cryptoparser.tls.record:SslRecord':
         out = out + [variant for data in out[:6] for variant in ssl2_three_byte_header_variants(data)]
     _CACHE[ref] = out
